@@ -121,14 +121,19 @@ theorem step_local2 {sh : Sh} {t : Tid} {pc : Pc} {op : Op} {sh' : Sh} {pc' : Pc
     | worker =>
       simp [step] at h; obtain ⟨rfl, rfl⟩ := h
       exact ⟨g2, by inv2, others_frame (by setfr) (by setfr) rfl rfl⟩
+    | override => simp [step] at h
   | pPushed id we =>
     simp [step] at h; obtain ⟨rfl, rfl⟩ := h
     exact ⟨by inv2, by inv2, others_frame (by setfr) (by setfr) rfl rfl⟩
   | pLinked id we =>
     simp only [step] at h
     split at h
-    · simp at h; obtain ⟨rfl, rfl⟩ := h
-      exact ⟨g2, by inv2, others_frame (by setfr) (by setfr) rfl rfl⟩
+    · split at h
+      · simp at h; obtain ⟨rfl, rfl⟩ := h
+        refine ⟨?_, by inv2, others_frame (by setfr) (by setfr) rfl rfl⟩
+        inv2
+      · simp at h; obtain ⟨rfl, rfl⟩ := h
+        exact ⟨g2, by inv2, others_frame (by setfr) (by setfr) rfl rfl⟩
     · split at h
       · simp at h; obtain ⟨rfl, rfl⟩ := h
         exact ⟨by inv2, by inv2, others_frame (by setfr) (by setfr) rfl rfl⟩
